@@ -44,6 +44,60 @@ type report struct {
 	Funcs       int      `json:"funcs_bracketed"`
 	Packages    []string `json:"packages"`
 	FilesEdited int      `json:"files_edited"`
+	GoSites     []string `json:"go_statement_sites"`
+}
+
+// goVersionLess compares "1.13", "1.21", "1.23.0" style versions.
+func goVersionLess(a, b string) bool {
+	pa, pb := strings.Split(a, "."), strings.Split(b, ".")
+	for i := 0; i < 3; i++ {
+		x, y := 0, 0
+		if i < len(pa) {
+			fmt.Sscanf(pa[i], "%d", &x)
+		}
+		if i < len(pb) {
+			fmt.Sscanf(pb[i], "%d", &y)
+		}
+		if x != y {
+			return x < y
+		}
+	}
+	return false
+}
+
+// countGoStatements lists the go statements of every non-test file below src (syntax only).
+func countGoStatements(src string) []string {
+	sites := []string{}
+	fset := token.NewFileSet()
+	filepath.Walk(src, func(path string, info os.FileInfo, err error) error {
+		if err != nil {
+			return nil
+		}
+		base := filepath.Base(path)
+		if info.IsDir() {
+			if path != src && (strings.HasPrefix(base, ".") || base == "testdata" || base == "vendor" || (base == "simhook" && filepath.Dir(path) == src)) {
+				return filepath.SkipDir
+			}
+			return nil
+		}
+		if !strings.HasSuffix(base, ".go") || strings.HasSuffix(base, "_test.go") {
+			return nil
+		}
+		f, err := parser.ParseFile(fset, path, nil, 0)
+		if err != nil {
+			return nil
+		}
+		rel, _ := filepath.Rel(src, path)
+		ast.Inspect(f, func(n ast.Node) bool {
+			if g, ok := n.(*ast.GoStmt); ok {
+				sites = append(sites, fmt.Sprintf("%s:%d", rel, fset.Position(g.Pos()).Line))
+			}
+			return true
+		})
+		return nil
+	})
+	sort.Strings(sites)
+	return sites
 }
 
 type pkgInfo struct {
@@ -102,7 +156,15 @@ func main() {
 	for _, l := range strings.Split(string(modBytes), "\n") {
 		t := strings.TrimSpace(l)
 		if strings.HasPrefix(t, "go ") {
-			modOut = append(modOut, "go 1.21")
+			// the seam needs generics (go >= 1.18; 1.21 is used). A directive below 1.21 is raised
+			// to it (no language semantics change between them); a newer one is KEPT, so that
+			// what it switches on - per-iteration loop variables (1.22), range over int / func -
+			// holds in the scratch copy as it does in the tree.
+			if goVersionLess(strings.TrimSpace(strings.TrimPrefix(t, "go ")), "1.21") {
+				modOut = append(modOut, "go 1.21")
+			} else {
+				modOut = append(modOut, t)
+			}
 			seenGo = true
 			continue
 		}
@@ -120,6 +182,12 @@ func main() {
 
 	if !*plain {
 		instrument(*src, module, r)
+	}
+	// the number of go statements of the tree, for both builds: 0 = the compiler is
+	// single-threaded and the harness calls it inline
+	r.GoSites = countGoStatements(*src)
+	if err := os.WriteFile(filepath.Join(*src, "simhook", "sites.go"), []byte(fmt.Sprintf("package simhook\n\n// GoSites is the number of go statements in the compiled tree (written by the instrumenter).\nconst GoSites = %d\n", len(r.GoSites))), 0o644); err != nil {
+		fatal("%v", err)
 	}
 	if *rep != "" {
 		b, _ := json.MarshalIndent(r, "", " ")
@@ -251,7 +319,13 @@ func instrumentFile(fset *token.FileSet, p *pkgInfo, f *ast.File, name, src, mod
 	ast.Inspect(f, func(n ast.Node) bool {
 		switch x := n.(type) {
 		case *ast.GoStmt:
+			// which goroutine runs next is decided by the Go scheduler, not by the simulator
 			r.Unseamed = append(r.Unseamed, fmt.Sprintf("%s:%d go statement", rel, fset.Position(x.Pos()).Line))
+			// `go func(...) { body }(...)`: a panic (or a tripped budget) inside the body is
+			// recorded for the harness instead of killing the process
+			if fl, ok := x.Call.Fun.(*ast.FuncLit); ok && fl.Body != nil {
+				edits = append(edits, edit{off(fl.Body.Lbrace) + 1, off(fl.Body.Lbrace) + 1, " defer simhook.GoExit();"})
+			}
 		case *ast.FuncDecl:
 			if x.Body != nil {
 				edits = append(edits, edit{off(x.Body.Lbrace) + 1, off(x.Body.Lbrace) + 1, " simhook.Enter(); defer simhook.Exit();"})
